@@ -189,6 +189,12 @@ def corpus_cases():
                + [{"op": "gc"}, {"op": "stale", "slot": "h1", "ents": [E("e1", "a", {"r1": "e3"}), E("e4", "a", {"r1": "e1"})]},
                   {"op": "stale", "slot": "h2", "ents": [E("e2", "b")]}] + rd(["e1", "e3", "e4"], ["a", "b"])
                + [{"op": "restart"}] + rd(["e1", "e3", "e4"], ["a", "b"]) + [{"op": "stale", "slot": "h1", "ents": [E("e2")]}, {"op": "gc"}]})
+    # r6-2: reads through a contextual store (transform API) after a delete, before gc and after restart
+    cx = lambda: [dict(o, ctx=True) for o in rd(["e1", "e3"], []) if o["op"] in ("get", "related")]
+    cs.append({"ops": [{"op": "create", "ds": "a"}, {"op": "create", "ds": "b"},
+                       {"op": "batch", "ds": "a", "ents": [E("e1", "a", {"r1": "e2"}), E("e2")]},
+                       {"op": "batch", "ds": "b", "ents": [E("e1", "b", {"r2": "e3"}), E("e3", "b", {"r1": "e1"})]}] + cx()
+               + [{"op": "delete", "ds": "b"}] + cx() + [{"op": "restart"}] + cx() + [{"op": "gc"}] + cx()})
     # r3-2: a rename held at its wait for the dataset-manager lock while another client creates the target name and writes to it
     cs.append({"ops": [{"op": "create", "ds": "a"}, {"op": "create", "ds": "b"},
                        {"op": "batch", "ds": "a", "ents": [E("e1", "a", {"r1": "e2"}), E("e2")]},
@@ -372,6 +378,8 @@ def gen_reads(rng, known, few, sim):
         else:
             ops.append({"op": "related", "starts": [U(i)], "pred": "*", "inverse": k == 2, "datasets": s,
                         "limits": [rng.choice([0, 0, 1, 2])]})
+        if rng.chance(1, 3):
+            ops[-1]["ctx"] = True      # the same read through a contextual store (JavaScript transform API)
     return ops
 
 
